@@ -294,7 +294,9 @@ func (env *verifEnv) tokOpenSealed(pdKey, pd, nonce string) (chal, meth string, 
 	}()
 	key, err := env.state.deserializeKeysetIntoPlaintextKey([]byte(pdKey))
 	if err != nil {
-		return "", "", false
+		if key = env.tokSiblingUnwrap(pdKey); key == nil {
+			return "", "", false
+		}
 	}
 	plain, err := decodeOpenData(pd, []byte(nonce), key)
 	if err != nil {
@@ -305,6 +307,25 @@ func (env *verifEnv) tokOpenSealed(pdKey, pd, nonce string) (chal, meth string, 
 		return "", "", false
 	}
 	return p.CodeChallenge, p.CodeChallengeMethod, true
+}
+
+// private halves of RSA keys listed in keymaster_public_keys_filename, when the harness plays the
+// sibling instance (C12: a daemon with an ECDSA signer wraps the box key for the sibling only)
+var tokSiblingKeys = map[*verifEnv][]*rsa.PrivateKey{}
+
+func (env *verifEnv) tokSiblingUnwrap(pdKey string) []byte {
+	var ks EncryptedKeySet
+	if json.Unmarshal([]byte(pdKey), &ks) != nil {
+		return nil
+	}
+	for _, k := range tokSiblingKeys[env] {
+		for _, ct := range ks.RsaOaep {
+			if plain, err := rsa.DecryptOAEP(sha256.New(), rand.Reader, k, ct, []byte(labelRSA)); err == nil {
+				return plain
+			}
+		}
+	}
+	return nil
 }
 
 // seal a challenge exactly as idpOpenIDCAuthorizationHandler does
